@@ -260,7 +260,7 @@ def show_place(fn, pl, depth=0):
             arms = []
             for d in ds:
                 if const_name(d[3]['rv']['op']) == 'true':
-                    arms.extend(direct_guards(fn, d[0], depth + 3, variants=False) if depth < 6 else ['_'])
+                    arms.append(' & '.join(direct_guards(fn, d[0], depth + 3, variants=False)) if depth < 6 else '_')
             return 'true-when{%s}' % ' | '.join(sorted(arms))
         if ds and fn.locals[base]['name']:
             return 'var:%s%s' % (fn.locals[base]['ty'], proj)
